@@ -74,8 +74,8 @@ type c07Report struct {
 
 // c07Cluster is the state of the metadata monitor of a cluster-mode run.
 type c07Cluster struct {
-	leaderOf map[uint64]string    // leader epoch -> leader, over all servers and the whole run
-	last     map[int]c07State     // simulation node (one incarnation of a server) -> last state read
+	leaderOf map[uint64]string // leader epoch -> leader, over all servers and the whole run
+	last     map[int]c07State  // simulation node (one incarnation of a server) -> last state read
 	reads    int
 }
 
@@ -239,9 +239,9 @@ func execC07(t *testing.T, prog *hx.Program, dec *simrt.Decider, verbose bool) *
 			h.oc.Trouble = "partition not found after create"
 			return
 		}
-		var reports []c07Report               // accepted reports, in time order
+		var reports []c07Report // accepted reports, in time order
 		leaderOf := map[uint64]string{cur.lepoch: cur.leader}
-		stale := []c07State{}                  // earlier (leader, epoch) generations
+		stale := []c07State{} // earlier (leader, epoch) generations
 		senders := append(append([]string{}, replicas...), "stranger")
 
 		check := func(what string, before c07State, reporting bool, staleReq bool, st error) bool {
